@@ -659,5 +659,4 @@ PROPS = {
 }
 
 
-def replay(run, path):
-    raise ToolError("replay not implemented for " + run.pid)
+# (`bin/check <ID> --replay FILE` is handled in vcheck.main: the recorded run is repeated on the current tree)
